@@ -471,7 +471,6 @@ func derivesFromClock(v ssa.Value, depth int) bool {
 	return false
 }
 
-
 // ctxDoneAt: the block is reached only when a context is known to be done - it is dominated by the body of a select
 // case receiving from ctx.Done(), by the edge ctx.Err() != nil, or by the true edge of a boolean helper all of whose
 // `return true` are themselves so dominated (isDone(ctx)).
@@ -546,7 +545,6 @@ func boolFactsLocal(b *ssa.BasicBlock) []BoolFact {
 	return BoolFactsAt(b.Instrs[0])
 }
 
-
 // sampleFieldSet: the instruction stores a value satisfying val under an index satisfying key into the fields of a
 // netsample.Sample - directly (s.fields[k] = v), through set(k, v), or through a setter of Sample that passes its
 // arguments on (SetUserNet(v) -> set(keyErrno, v) -> fields[k] = v).
@@ -596,7 +594,6 @@ func sampleFieldSet(in ssa.Instruction, key, val func(ssa.Value) bool, depth int
 }
 
 func isConstValue(v ssa.Value) bool { _, ok := v.(*ssa.Const); return ok }
-
 
 // isTimerChan: the channel is Waiter.timer.C, or what a helper of the package returns on every path is (armTimer(d)).
 func isTimerChan(v ssa.Value, depth int) bool {
